@@ -235,6 +235,10 @@ pub struct BuilderConfig {
     /// the order of builder calls must not matter
     #[serde(default)]
     pub setters_last: bool,
+    /// when set, the source date is "this many seconds ago" at the moment the case runs (a commit
+    /// made seconds before the build) instead of the fixed `source_date`
+    #[serde(default)]
+    pub source_date_secs_ago: Option<u32>,
 }
 
 impl BuilderConfig {
@@ -266,6 +270,7 @@ impl BuilderConfig {
             reuse_source: false,
             source_date_zone: None,
             setters_last: false,
+            source_date_secs_ago: None,
         }
     }
 
@@ -828,6 +833,7 @@ pub fn config_any(p: CfgParams) -> BoxedStrategy<BuilderConfig> {
                     reuse_source: false,
                     source_date_zone: None,
                     setters_last: false,
+                    source_date_secs_ago: None,
                 }
             },
         )
